@@ -1,5 +1,6 @@
 import RichModel.Lemmas.Pretty
 import RichModel.Lemmas.PrettyTraverse
+import RichModel.Lemmas.PrettyMeasure
 /-!
 # C16 — pretty-printed data evaluates back to the data
 
@@ -379,6 +380,120 @@ theorem old_empty_array_literal :
 theorem repaired_empty_array :
     (traverse (cfg0 .repaired) [.seq .array "'i'".toList []] 0).map Node.str = some "array('i')".toList := by
   decide
+
+/-! ## `Pretty.__rich_measure__` (the Pretty clause of C09) and options outside their domain -/
+
+/-- **pretty_measure_sound** (code that passes `expand_all` to the measurement; `margin = 0`).
+If `__rich_measure__` at an available width `W` reports `Measurement(m, m)`, then rendering the same
+object at width `m` yields only lines of at most `m` cells — for every tree, `W`, indent and
+`expand_all`.  Hypotheses: blanks are one cell wide, and the only line breaks in the text measured are
+the layout's (no leaf `repr` contains a line boundary). -/
+theorem pretty_measure_sound (hs : cw ' ' = 1) (v : Variant) (hv : v.measureNoExpandAll = false)
+    (n : Node) (W ind : Int) (ea : Bool) (m : Nat)
+    (hb : ∀ l ∈ renderLines cw v n W ind ea, noBreak l.str)
+    (hm : prettyMeasure cw v n W ind ea = .ok m) :
+    ∀ l ∈ renderLines cw v n (m : Int) ind ea, cellLen cw l.str ≤ m := by
+  -- every line at W is at most m cells
+  have hW : ∀ l ∈ renderLines cw v n W ind ea, cellLen cw l.str ≤ m := by
+    intro l hl
+    simp only [prettyMeasure, hv, Bool.false_eq_true, if_false, render] at hm
+    by_cases he : l.str = []
+    · rw [he]; exact Nat.zero_le _
+    · have hmem := mem_splitlines_join ((renderLines cw v n W ind ea).map Line.str)
+        (by intro s hs
+            simp only [List.mem_map] at hs
+            obtain ⟨l', hl', rfl⟩ := hs
+            exact hb l' hl') l.str (List.mem_map.mpr ⟨l, hl, rfl⟩) he
+      exact pyMax_ge _ m hm _ (List.mem_map.mpr ⟨_, hmem, rfl⟩)
+  have cells_of : ∀ (w : Int) (l : Line), l ∈ renderLines cw v n w ind ea → cellLen cw l.str = l.cells cw := by
+    intro w l hl
+    obtain ⟨d, hd⟩ := indent_consistent cw v n w ind ea l hl
+    exact Line.cells_eq_str cw hs l _ hd
+  intro l hl
+  rw [cells_of (m : Int) l hl]
+  rw [render_is_spec] at hl
+  cases hea : ea with
+  | true =>
+    subst hea
+    have := specLine_ea_width ⟨cw, v, W, ind, true⟩ (m : Int) rfl n (rootLine n)
+    rw [this, ← render_is_spec] at hl
+    rw [← cells_of W l hl]; exact hW l hl
+  | false =>
+    subst hea
+    refine specLine_bound ⟨cw, v, W, ind, false⟩ m rfl n (rootLine n) rfl ?_ l hl
+    intro l' hl'
+    rw [← render_is_spec] at hl'
+    rw [← cells_of W l' hl']; exact hW l' hl'
+
+/-- the tree of `[['a']]`. -/
+def nestedList : Node :=
+  .mk [] [] ['['] [']'] [] true false true
+    [.mk [] [] ['['] [']'] [] true false true [.mk [] "'a'".toList [] [] [] true false false []]]
+
+/-- **F26 (code as found).**  `__rich_measure__` calls `pretty_repr` without `expand_all`:
+`Pretty([['a']], expand_all=True)` measures 7 (the one-line form) but renders, at width 7, the line
+`        'a'` of 11 cells — a container sized from the measurement (Panel.fit, a table column) crops it. -/
+theorem old_pretty_measure_unsound :
+    prettyMeasure (fun _ => 1) .current nestedList 80 4 true = .ok 7 ∧
+    ∃ l ∈ specLine ⟨fun _ => 1, .current, 7, 4, true⟩ (rootLine nestedList) nestedList,
+      cellLen (fun _ => 1) l.str = 11 := by
+  constructor
+  · unfold prettyMeasure render; rw [render_is_spec]; dsimp only; decide
+  · decide
+
+/-- the repaired measurement of the same value is 11. -/
+theorem repaired_pretty_measure :
+    prettyMeasure (fun _ => 1) .repaired nestedList 80 4 true = .ok 11 := by
+  unfold prettyMeasure render; rw [render_is_spec]; dsimp only; decide
+
+/-- The error branch: an object whose `repr()` is empty renders as the empty string, which has no
+lines, and `__rich_measure__` raises `ValueError` (`max()` of an empty sequence). -/
+theorem measure_of_empty_repr_raises (v : Variant) (W ind : Int) (ea : Bool) :
+    prettyMeasure cw v (.mk [] [] [] [] [] true false false []) W ind ea = .error .valueError := by
+  unfold prettyMeasure render; rw [render_is_spec]
+  simp [specLine, joinLines, List.intercalate, Line.str, rootLine, Node.str, Node.tokens, splitlines, splitLoop, pyMax]
+
+/-- **The root's `last` flag is unobservable** in the code with fix 376cec1 (the closing line carries its
+line's suffix): the rendered text does not depend on it.  (Children's `last` flags decide the
+separators; in the code as found the root's flag decided the suffix of the root's closing line.) -/
+theorem root_last_unobservable (v : Variant) (hv : v.dropSuffix = false) (n : Node) (b : Bool)
+    (w ind : Int) (ea : Bool) :
+    render cw v (n.setLast b) w ind ea = render cw v n w ind ea := by
+  unfold render
+  rw [render_is_spec, render_is_spec]
+  have := specLine_setLast_str ⟨cw, v, w, ind, ea⟩ hv n { isRoot := true } b
+  simp only [rootLine] at this ⊢
+  rw [this]
+
+/-- **Domain of `max_length`.**  A negative `max_length` makes `traverse` raise `ValueError` exactly when
+the root is a non-empty container, and is otherwise never looked at; a non-negative one is the
+natural number the other theorems speak about. -/
+theorem max_length_domain (pyRepr : Bool → Str → Str) (v : Variant) (m : Int) (ms : Option Int)
+    (h : Heap) (root : Nat) :
+    (m < 0 → traverseAny pyRepr v (some m) ms h root =
+      if nonEmptyContainer h root then .error .valueError
+      else .ok (traverse ⟨pyRepr, v, none, ms⟩ h root)) ∧
+    (0 ≤ m → traverseAny pyRepr v (some m) ms h root = .ok (traverse ⟨pyRepr, v, some m.toNat, ms⟩ h root)) := by
+  refine ⟨fun hm => by simp [traverseAny, hm], fun hm => ?_⟩
+  have : ¬ m < 0 := by omega
+  simp [traverseAny, this]
+
+/-- **Domain of `max_width`**: for a negative (or zero) `max_width` every non-empty container is
+expanded, at every level, and nothing else changes — the output is the `expand_all` output. -/
+theorem nonpositive_width_is_expand_all (v : Variant) (n : Node) (w ind : Int) (hneg : w ≤ 0)
+    (hpos : ∀ l ∈ renderLines cw v n w ind false, ∀ m, l.node = some m → m.expandable = true → 0 < cellLen cw m.str) :
+    ∀ l ∈ renderLines cw v n w ind false, l.expandable = false := by
+  intro l hl
+  cases he : l.expandable with
+  | false => rfl
+  | true =>
+    cases hn : l.node with
+    | none => simp [Line.expandable, hn] at he
+    | some m =>
+      have hm : m.expandable = true := by simpa [Line.expandable, hn, Node.expandable] using he
+      have := (kept_line_fits cw v n w ind false l hl m hn hm).2
+      have := hpos l hl m hn hm
+      omega
 
 /-! ## Non-vacuity: the hypotheses are met by concrete non-trivial values -/
 
